@@ -119,12 +119,17 @@ func (c *Conversation) processDataMessageWithRawErrors(header, msg []byte) (plai
 		return
 	}
 
+	alreadyRecorded := c.keys.macKeyHistory.has(dataMessage.recipientKeyID, dataMessage.senderKeyID)
 	sessionKeys, err := c.keys.calculateDHSessionKeys(dataMessage.recipientKeyID, dataMessage.senderKeyID, c.version)
 	if err != nil {
 		return
 	}
 
 	if err = dataMessage.checkSign(sessionKeys.receivingMACKey, header, c.version); err != nil {
+		// a MAC key that authenticated nothing is not a used MAC key
+		if !alreadyRecorded {
+			c.keys.macKeyHistory.forgetKeysFor(dataMessage.recipientKeyID, dataMessage.senderKeyID)
+		}
 		return
 	}
 
